@@ -172,10 +172,10 @@ class ElementLocator : public BaseElementLocator
         return element_addresses_begin;
     }
 
-    void trivially_copy_into(std::byte* CNTGS_RESTRICT old_memory_begin,
-                             std::byte* CNTGS_RESTRICT new_memory_begin) noexcept
+    void trivially_copy_into(const std::byte* CNTGS_RESTRICT old_memory_begin,
+                             std::byte* CNTGS_RESTRICT new_memory_begin) const noexcept
     {
-        trivially_copy_into(this->last_element_, old_memory_begin, new_memory_begin);
+        std::memcpy(new_memory_begin, old_memory_begin, this->last_element_ - old_memory_begin);
     }
 
     static constexpr std::size_t calculate_new_memory_size(std::size_t max_element_count,
@@ -184,15 +184,6 @@ class ElementLocator : public BaseElementLocator
     {
         return ElementTraits::calculate_needed_memory_size(max_element_count, varying_size_bytes,
                                                            ElementTraits::calculate_element_size(fixed_sizes));
-    }
-
-  private:
-    void trivially_copy_into(std::byte* old_last_element, std::byte* CNTGS_RESTRICT old_memory_begin,
-                             std::byte* CNTGS_RESTRICT new_memory_begin) noexcept
-    {
-        const auto memory_size = std::distance(old_memory_begin, old_last_element);
-        std::memcpy(new_memory_begin, old_memory_begin, memory_size);
-        this->last_element_ = new_memory_begin + memory_size;
     }
 };
 
@@ -279,7 +270,7 @@ class AllFixedSizeElementLocator : public BaseAllFixedSizeElementLocator
                                                  std::forward<Args>(args)...);
     }
 
-    void trivially_copy_into(const std::byte* old_memory_begin, std::byte* new_memory_begin) noexcept
+    void trivially_copy_into(const std::byte* old_memory_begin, std::byte* new_memory_begin) const noexcept
     {
         trivially_copy_into(*this, old_memory_begin, new_memory_begin);
     }
@@ -291,8 +282,8 @@ class AllFixedSizeElementLocator : public BaseAllFixedSizeElementLocator
     }
 
   private:
-    void trivially_copy_into(const AllFixedSizeElementLocator& old_locator, const std::byte* old_memory_begin,
-                             std::byte* new_memory_begin) noexcept
+    static void trivially_copy_into(const AllFixedSizeElementLocator& old_locator, const std::byte* old_memory_begin,
+                                    std::byte* new_memory_begin) noexcept
     {
         std::memcpy(new_memory_begin, old_memory_begin, old_locator.element_count_ * old_locator.stride_);
     }
